@@ -269,6 +269,41 @@ fn main() {
         }
     }
 
+    // shard/edge logics after set-up (zero-copy parameter structs)
+    {
+        let sigs: Vec<[u64; 2]> = (0..64u64).map(|i| [mix(i).rotate_left(i as u32), mix(i + 1000)]).chain([[0, 0], [u64::MAX, u64::MAX], [1 << 63, 1]]).collect();
+        for n in [0usize, 1, 1000, 150_000, 5_000_000, 40_000_000] {
+            macro_rules! se {
+                ($name:expr, $E:ty, $S:ty, $mk:expr) => {
+                    roundtrip!(&mut ctx, dir, $name, &format!("set up for {n} keys"), $E, {
+                        fn setup<S, E: ShardEdge<S, 3>>(n: usize) -> E {
+                            let mut e = E::default();
+                            e.set_up_shards(n, 0.001);
+                            let s = e.num_shards();
+                            e.set_up_graphs(n, n.div_ceil(s));
+                            e
+                        }
+                        setup::<$S, $E>(n)
+                    }, |o, l| {
+                        // (explicitly typed helpers: the loaded value may be the type itself, a reference or a MemCase)
+                        fn geom<S, E: ShardEdge<S, 3>>(e: &E) -> (usize, usize, u32, usize) {
+                            (e.num_vertices(), e.num_shards(), e.shard_high_bits(), e.num_sort_keys())
+                        }
+                        fn at<S: Copy, E: ShardEdge<S, 3>>(e: &E, s: S) -> ([usize; 3], usize, usize) {
+                            (e.edge(s), e.sort_key(s), e.shard(s))
+                        }
+                        geom::<$S, $E>(&o) == geom::<$S, $E>(&l) && sigs.iter().all(|s| { let sg: $S = $mk(*s); at::<$S, $E>(&o, sg) == at::<$S, $E>(&l, sg) })
+                    });
+                };
+            }
+            se!("FuseLge3Shards", FuseLge3Shards, [u64; 2], |s: [u64; 2]| s);
+            se!("FuseLge3FullSigs", FuseLge3FullSigs, [u64; 2], |s: [u64; 2]| s);
+            se!("FuseLge3NoShards<[u64;2]>", FuseLge3NoShards, [u64; 2], |s: [u64; 2]| s);
+            se!("FuseLge3NoShards<[u64;1]>", FuseLge3NoShards, [u64; 1], |s: [u64; 2]| [s[0]]);
+            se!("Mwhc3Shards", Mwhc3Shards, [u64; 2], |s: [u64; 2]| s);
+            se!("Mwhc3NoShards", Mwhc3NoShards, [u64; 2], |s: [u64; 2]| s);
+        }
+    }
     // static functions and filters
     let mut sizes: Vec<usize> = vec![0, 1, 10, 1000];
     if t {
